@@ -235,7 +235,8 @@ def cubic_spline(
         a = inputs_b[quadratic_mask]
         b = inputs_c[quadratic_mask]
         c = inputs_d[quadratic_mask] - inputs[quadratic_mask]
-        alpha = (-b + torch.sqrt(b.pow(2) - 4 * a * c)) / (2 * a)
+        # Equal to (-b + sqrt(b^2 - 4ac)) / (2a), but well defined for a == 0 (locally linear segments).
+        alpha = (2 * c) / (-b - torch.sqrt(b.pow(2) - 4 * a * c))
         outputs[quadratic_mask] = alpha + input_left_cumwidths[quadratic_mask]
 
         shifted_outputs = outputs - input_left_cumwidths
